@@ -1040,7 +1040,11 @@ impl Entity {
                 }
             }
         }
-        for field in new_entity.fields {
+        //new fields get their identifier in declaration order (their position in the new version),
+        //not in the iteration order of the map, which differs between two instances
+        let mut new_fields: Vec<(String, Field)> = new_entity.fields.into_iter().collect();
+        new_fields.sort_by_key(|field| field.1.short_name.parse::<usize>().unwrap_or(usize::MAX));
+        for field in new_fields {
             if !field.1.nullable && field.1.default_value.is_none() {
                 match field.1.field_type {
                     FieldType::Array(_) | FieldType::Entity(_) => {}
